@@ -152,3 +152,295 @@ Proof.
   intros Hin. apply Hnotin. unfold keys in *. apply in_map_iff in Hin as [x [Hx Hin]].
   apply filter_In in Hin as [Hin _]. apply in_map_iff. exists x; split; assumption.
 Qed.
+
+(* ---------- the iteration-order oracle ---------- *)
+Definition ord_rev : order_oracle := mkOrd (@rev _) (@rev _).
+
+Lemma ord_id_ok : ord_ok ord_id.
+Proof. split; intros; apply Permutation_refl. Qed.
+Lemma ord_rev_ok : ord_ok ord_rev.
+Proof. split; intros; apply Permutation_sym, Permutation_rev. Qed.
+
+Lemma ord_items_nil : forall oo l, ord_ok oo -> (ord_items oo l = [] <-> l = []).
+Proof.
+  intros oo l [H _]. specialize (H l). split; intros E.
+  - rewrite E in H. apply Permutation_nil in H. exact H.
+  - subst. apply Permutation_sym, Permutation_nil in H. exact H.
+Qed.
+
+Lemma ord_items_in : forall oo l x, ord_ok oo -> (In x (ord_items oo l) <-> In x l).
+Proof.
+  intros oo l x [H _]. split; apply Permutation_in; [apply H|apply Permutation_sym, H].
+Qed.
+
+(* ---------- get_max_item / get_min_item ---------- *)
+Definition is_max (m : items) (kv : listitem * Z) : Prop :=
+  In kv m /\ forall x, In x m -> snd x <= snd kv.
+Definition is_min (m : items) (kv : listitem * Z) : Prop :=
+  In kv m /\ forall x, In x m -> snd kv <= snd x.
+
+Lemma max_fold_spec : forall l acc,
+  match fold_left max_step l acc with
+  | None => acc = None /\ l = []
+  | Some kv => (In kv l \/ acc = Some kv) /\ (forall x, In x l -> snd x <= snd kv)
+               /\ (forall a, acc = Some a -> snd a <= snd kv)
+  end.
+Proof.
+  induction l as [|x r IH]; intros acc; cbn [fold_left].
+  - destruct acc as [kv|]; [|split; reflexivity].
+    split; [right; reflexivity|]. split; [intros ? []|]. intros a E. injection E as ->. lia.
+  - specialize (IH (max_step acc x)).
+    destruct (fold_left max_step r (max_step acc x)) as [kv|].
+    + destruct IH as [Hin [Hall Hacc]].
+      assert (Hx : snd x <= snd kv /\ forall a, acc = Some a -> snd a <= snd kv).
+      { unfold max_step in Hacc. destruct acc as [[ka ma]|].
+        - destruct (ma <? snd x) eqn:E.
+          + specialize (Hacc _ eq_refl). apply Z.ltb_lt in E. split; [exact Hacc|].
+            intros a Ea. injection Ea as <-. cbn. lia.
+          + specialize (Hacc _ eq_refl). cbn in Hacc. apply Z.ltb_ge in E. split; [lia|].
+            intros a Ea. injection Ea as <-. exact Hacc.
+        - specialize (Hacc _ eq_refl). split; [exact Hacc|intros a Ea; discriminate]. }
+      destruct Hx as [Hx Hacc'].
+      split; [|split; [intros y [<-|Hy]; [exact Hx|apply Hall; exact Hy]|exact Hacc']].
+      destruct Hin as [Hin|Hin]; [left; right; exact Hin|].
+      unfold max_step in Hin. destruct acc as [[ka ma]|].
+      * destruct (ma <? snd x); [injection Hin as <-; left; left; reflexivity|right; exact Hin].
+      * injection Hin as <-. left; left; reflexivity.
+    + destruct IH as [Hacc _]. unfold max_step in Hacc. destruct acc as [[ka ma]|]; [|discriminate].
+      destruct (ma <? snd x); discriminate.
+Qed.
+
+Lemma min_fold_spec : forall l acc,
+  match fold_left min_step l acc with
+  | None => acc = None /\ l = []
+  | Some kv => (In kv l \/ acc = Some kv) /\ (forall x, In x l -> snd kv <= snd x)
+               /\ (forall a, acc = Some a -> snd kv <= snd a)
+  end.
+Proof.
+  induction l as [|x r IH]; intros acc; cbn [fold_left].
+  - destruct acc as [kv|]; [|split; reflexivity].
+    split; [right; reflexivity|]. split; [intros ? []|]. intros a E. injection E as ->. lia.
+  - specialize (IH (min_step acc x)).
+    destruct (fold_left min_step r (min_step acc x)) as [kv|].
+    + destruct IH as [Hin [Hall Hacc]].
+      assert (Hx : snd kv <= snd x /\ forall a, acc = Some a -> snd kv <= snd a).
+      { unfold min_step in Hacc. destruct acc as [[ka ma]|].
+        - destruct (snd x <? ma) eqn:E.
+          + specialize (Hacc _ eq_refl). apply Z.ltb_lt in E. split; [exact Hacc|].
+            intros a Ea. injection Ea as <-. cbn. lia.
+          + specialize (Hacc _ eq_refl). cbn in Hacc. apply Z.ltb_ge in E. split; [lia|].
+            intros a Ea. injection Ea as <-. exact Hacc.
+        - specialize (Hacc _ eq_refl). split; [exact Hacc|intros a Ea; discriminate]. }
+      destruct Hx as [Hx Hacc'].
+      split; [|split; [intros y [<-|Hy]; [exact Hx|apply Hall; exact Hy]|exact Hacc']].
+      destruct Hin as [Hin|Hin]; [left; right; exact Hin|].
+      unfold min_step in Hin. destruct acc as [[ka ma]|].
+      * destruct (snd x <? ma); [injection Hin as <-; left; left; reflexivity|right; exact Hin].
+      * injection Hin as <-. left; left; reflexivity.
+    + destruct IH as [Hacc _]. unfold min_step in Hacc. destruct acc as [[ka ma]|]; [|discriminate].
+      destruct (snd x <? ma); discriminate.
+Qed.
+
+Section OneOracle.
+Variable oo : order_oracle.
+Hypothesis Hoo : ord_ok oo.
+
+Lemma get_max_item_spec : forall l,
+  match get_max_item oo l with
+  | None => l_items l = []
+  | Some kv => is_max (l_items l) kv
+  end.
+Proof.
+  intros l. unfold get_max_item. pose proof (max_fold_spec (ord_items oo (l_items l)) None) as H.
+  destruct (fold_left max_step (ord_items oo (l_items l)) None) as [kv|].
+  - destruct H as [[Hin|Hin] [Hall _]]; [|discriminate]. split.
+    + apply (ord_items_in oo _ _ Hoo). exact Hin.
+    + intros x Hx. apply Hall. apply (ord_items_in oo _ _ Hoo). exact Hx.
+  - destruct H as [_ H]. apply (ord_items_nil oo _ Hoo). exact H.
+Qed.
+
+Lemma get_min_item_spec : forall l,
+  match get_min_item oo l with
+  | None => l_items l = []
+  | Some kv => is_min (l_items l) kv
+  end.
+Proof.
+  intros l. unfold get_min_item. pose proof (min_fold_spec (ord_items oo (l_items l)) None) as H.
+  destruct (fold_left min_step (ord_items oo (l_items l)) None) as [kv|].
+  - destruct H as [[Hin|Hin] [Hall _]]; [|discriminate]. split.
+    + apply (ord_items_in oo _ _ Hoo). exact Hin.
+    + intros x Hx. apply Hall. apply (ord_items_in oo _ _ Hoo). exact Hx.
+  - destruct H as [_ H]. apply (ord_items_nil oo _ Hoo). exact H.
+Qed.
+
+(* the unwraps guarded by an emptiness test in ink_list.rs are safe *)
+Lemma get_max_item_none : forall l, get_max_item oo l = None <-> list_is_empty l = true.
+Proof.
+  intros l. pose proof (get_max_item_spec l) as H. unfold list_is_empty, items_is_empty.
+  destruct (get_max_item oo l) as [kv|].
+  - destruct H as [Hin _]. split; [discriminate|]. destruct (l_items l); [contradiction|discriminate].
+  - rewrite H. split; reflexivity.
+Qed.
+Lemma get_min_item_none : forall l, get_min_item oo l = None <-> list_is_empty l = true.
+Proof.
+  intros l. pose proof (get_min_item_spec l) as H. unfold list_is_empty, items_is_empty.
+  destruct (get_min_item oo l) as [kv|].
+  - destruct H as [Hin _]. split; [discriminate|]. destruct (l_items l); [contradiction|discriminate].
+  - rewrite H. split; reflexivity.
+Qed.
+End OneOracle.
+
+(* the VALUE of the extreme item never depends on the order; the ITEM does not either
+   when no two items have the same value *)
+Definition max_value (oo : order_oracle) (l : inklist) : option Z := option_map snd (get_max_item oo l).
+Definition min_value (oo : order_oracle) (l : inklist) : option Z := option_map snd (get_min_item oo l).
+
+Lemma is_max_value_unique : forall m a b, is_max m a -> is_max m b -> snd a = snd b.
+Proof. intros m a b [Ha Ha'] [Hb Hb']. specialize (Ha' _ Hb). specialize (Hb' _ Ha). lia. Qed.
+Lemma is_min_value_unique : forall m a b, is_min m a -> is_min m b -> snd a = snd b.
+Proof. intros m a b [Ha Ha'] [Hb Hb']. specialize (Ha' _ Hb). specialize (Hb' _ Ha). lia. Qed.
+
+Lemma is_max_perm : forall m m' a, Permutation m m' -> is_max m a -> is_max m' a.
+Proof.
+  intros m m' a Hp [Hin Hall]. split; [eapply Permutation_in; eassumption|].
+  intros x Hx. apply Hall. eapply Permutation_in; [apply Permutation_sym; exact Hp|exact Hx].
+Qed.
+Lemma is_min_perm : forall m m' a, Permutation m m' -> is_min m a -> is_min m' a.
+Proof.
+  intros m m' a Hp [Hin Hall]. split; [eapply Permutation_in; eassumption|].
+  intros x Hx. apply Hall. eapply Permutation_in; [apply Permutation_sym; exact Hp|exact Hx].
+Qed.
+
+Theorem max_value_order_independent : forall oo1 oo2 l l',
+  ord_ok oo1 -> ord_ok oo2 -> Permutation (l_items l) (l_items l') ->
+  max_value oo1 l = max_value oo2 l'.
+Proof.
+  intros oo1 oo2 l l' H1 H2 Hp. unfold max_value.
+  pose proof (get_max_item_spec oo1 H1 l) as A. pose proof (get_max_item_spec oo2 H2 l') as B.
+  destruct (get_max_item oo1 l) as [a|], (get_max_item oo2 l') as [b|]; cbn.
+  - f_equal. eapply is_max_value_unique; [eapply is_max_perm; eassumption|exact B].
+  - destruct A as [Hin _]. rewrite B in Hp. apply Permutation_sym, Permutation_nil in Hp. rewrite Hp in Hin. contradiction.
+  - destruct B as [Hin _]. rewrite A in Hp. apply Permutation_nil in Hp. rewrite Hp in Hin. contradiction.
+  - reflexivity.
+Qed.
+
+Theorem min_value_order_independent : forall oo1 oo2 l l',
+  ord_ok oo1 -> ord_ok oo2 -> Permutation (l_items l) (l_items l') ->
+  min_value oo1 l = min_value oo2 l'.
+Proof.
+  intros oo1 oo2 l l' H1 H2 Hp. unfold min_value.
+  pose proof (get_min_item_spec oo1 H1 l) as A. pose proof (get_min_item_spec oo2 H2 l') as B.
+  destruct (get_min_item oo1 l) as [a|], (get_min_item oo2 l') as [b|]; cbn.
+  - f_equal. eapply is_min_value_unique; [eapply is_min_perm; eassumption|exact B].
+  - destruct A as [Hin _]. rewrite B in Hp. apply Permutation_sym, Permutation_nil in Hp. rewrite Hp in Hin. contradiction.
+  - destruct B as [Hin _]. rewrite A in Hp. apply Permutation_nil in Hp. rewrite Hp in Hin. contradiction.
+  - reflexivity.
+Qed.
+
+Lemma nodup_map_inj : forall A B (f : A -> B) l a b,
+  NoDup (map f l) -> In a l -> In b l -> f a = f b -> a = b.
+Proof.
+  induction l as [|x r IH]; cbn; intros a b Hnd Ha Hb E; [contradiction|].
+  inversion Hnd as [|? ? Hnotin Hnd']; subst.
+  destruct Ha as [<-|Ha], Hb as [<-|Hb]; [reflexivity| | |apply IH; assumption].
+  - exfalso. apply Hnotin. rewrite E. apply in_map. exact Hb.
+  - exfalso. apply Hnotin. rewrite <- E. apply in_map. exact Ha.
+Qed.
+
+(* site get_max_item / get_min_item: independent of the order when values are distinct *)
+Theorem get_max_item_order_independent : forall oo1 oo2 l,
+  ord_ok oo1 -> ord_ok oo2 -> NoDup (map snd (l_items l)) ->
+  get_max_item oo1 l = get_max_item oo2 l.
+Proof.
+  intros oo1 oo2 l H1 H2 Hnd.
+  pose proof (get_max_item_spec oo1 H1 l) as A. pose proof (get_max_item_spec oo2 H2 l) as B.
+  destruct (get_max_item oo1 l) as [a|], (get_max_item oo2 l) as [b|].
+  - f_equal. eapply nodup_map_inj; [exact Hnd|apply A|apply B|]. eapply is_max_value_unique; eassumption.
+  - destruct A as [Hin _]. rewrite B in Hin. contradiction.
+  - destruct B as [Hin _]. rewrite A in Hin. contradiction.
+  - reflexivity.
+Qed.
+Theorem get_min_item_order_independent : forall oo1 oo2 l,
+  ord_ok oo1 -> ord_ok oo2 -> NoDup (map snd (l_items l)) ->
+  get_min_item oo1 l = get_min_item oo2 l.
+Proof.
+  intros oo1 oo2 l H1 H2 Hnd.
+  pose proof (get_min_item_spec oo1 H1 l) as A. pose proof (get_min_item_spec oo2 H2 l) as B.
+  destruct (get_min_item oo1 l) as [a|], (get_min_item oo2 l) as [b|].
+  - f_equal. eapply nodup_map_inj; [exact Hnd|apply A|apply B|]. eapply is_min_value_unique; eassumption.
+  - destruct A as [Hin _]. rewrite B in Hin. contradiction.
+  - destruct B as [Hin _]. rewrite A in Hin. contradiction.
+  - reflexivity.
+Qed.
+
+(* ... and refuted when two items tie (defect D18): LIST_MAX(a + x) with L.a = M.x = 1 *)
+Definition tie_list : inklist :=
+  mkList [(mkItem (Some (T "L")) (T "a"), 1); (mkItem (Some (T "M")) (T "x"), 1)] [] [].
+
+Theorem get_max_item_order_refuted :
+  exists oo1 oo2 l, ord_ok oo1 /\ ord_ok oo2 /\ get_max_item oo1 l <> get_max_item oo2 l.
+Proof.
+  exists ord_id, ord_rev, tie_list. split; [apply ord_id_ok|]. split; [apply ord_rev_ok|].
+  vm_compute. discriminate.
+Qed.
+Theorem get_min_item_order_refuted :
+  exists oo1 oo2 l, ord_ok oo1 /\ ord_ok oo2 /\ get_min_item oo1 l <> get_min_item oo2 l.
+Proof.
+  exists ord_id, ord_rev, tie_list. split; [apply ord_id_ok|]. split; [apply ord_rev_ok|].
+  vm_compute. discriminate.
+Qed.
+
+(* ListDefinition::get_item_with_value: duplicate values inside one LIST declaration *)
+Theorem def_item_with_value_order_refuted :
+  exists oo1 oo2 d v, ord_ok oo1 /\ ord_ok oo2 /\ def_item_with_value oo1 d v <> def_item_with_value oo2 d v.
+Proof.
+  exists ord_id, ord_rev, (T "K", [(T "p", 1); (T "q", 1)]), 1.
+  split; [apply ord_id_ok|]. split; [apply ord_rev_ok|]. vm_compute. discriminate.
+Qed.
+
+Theorem def_item_with_value_order_independent : forall oo1 oo2 d v,
+  ord_ok oo1 -> ord_ok oo2 -> NoDup (map snd (snd d)) ->
+  def_item_with_value oo1 d v = def_item_with_value oo2 d v.
+Proof.
+  intros oo1 oo2 d v [_ H1] [_ H2] Hnd. unfold def_item_with_value.
+  assert (Hfind : forall oo, (forall l, Permutation (ord_def oo l) l) ->
+            find (fun nv : text * Z => snd nv =? v) (ord_def oo (snd d)) =
+            find (fun nv : text * Z => snd nv =? v) (snd d)).
+  { intros oo Ho.
+    destruct (find (fun nv : text * Z => snd nv =? v) (ord_def oo (snd d))) as [a|] eqn:Ea;
+    destruct (find (fun nv : text * Z => snd nv =? v) (snd d)) as [b|] eqn:Eb; try reflexivity.
+    - apply find_some in Ea as [Ha Hav]. apply find_some in Eb as [Hb Hbv].
+      apply Z.eqb_eq in Hav. apply Z.eqb_eq in Hbv. f_equal.
+      eapply nodup_map_inj; [exact Hnd|eapply Permutation_in; [apply Ho|exact Ha]|exact Hb|congruence].
+    - apply find_some in Ea as [Ha Hav].
+      eapply find_none in Eb; [|eapply Permutation_in; [apply Ho|exact Ha]]. congruence.
+    - apply find_some in Eb as [Hb Hbv].
+      eapply find_none in Ea; [|eapply Permutation_in; [apply Permutation_sym, Ho|exact Hb]]. congruence. }
+  rewrite (Hfind oo1 H1), (Hfind oo2 H2). reflexivity.
+Qed.
+
+(* the comparisons only look at extreme VALUES: order independent, always *)
+Lemma max_value_eq : forall oo l, get_max_item oo l = None \/ exists k v, get_max_item oo l = Some (k, v) /\ max_value oo l = Some v.
+Proof. intros. unfold max_value. destruct (get_max_item oo l) as [[k v]|]; [right; eauto|left; reflexivity]. Qed.
+
+Theorem list_comparisons_order_independent : forall oo1 oo2 a b,
+  ord_ok oo1 -> ord_ok oo2 ->
+  list_greater_than oo1 a b = list_greater_than oo2 a b /\
+  list_greater_than_or_equals oo1 a b = list_greater_than_or_equals oo2 a b /\
+  list_less_than oo1 a b = list_less_than oo2 a b /\
+  list_less_than_or_equals oo1 a b = list_less_than_or_equals oo2 a b.
+Proof.
+  intros oo1 oo2 a b H1 H2.
+  pose proof (max_value_order_independent oo1 oo2 a a H1 H2 (Permutation_refl _)) as Ma.
+  pose proof (max_value_order_independent oo1 oo2 b b H1 H2 (Permutation_refl _)) as Mb.
+  pose proof (min_value_order_independent oo1 oo2 a a H1 H2 (Permutation_refl _)) as ma.
+  pose proof (min_value_order_independent oo1 oo2 b b H1 H2 (Permutation_refl _)) as mb.
+  unfold max_value, min_value in *.
+  unfold list_greater_than, list_greater_than_or_equals, list_less_than, list_less_than_or_equals.
+  destruct (get_max_item oo1 a) as [[? ?]|], (get_max_item oo2 a) as [[? ?]|]; cbn in Ma; try discriminate;
+  destruct (get_max_item oo1 b) as [[? ?]|], (get_max_item oo2 b) as [[? ?]|]; cbn in Mb; try discriminate;
+  destruct (get_min_item oo1 a) as [[? ?]|], (get_min_item oo2 a) as [[? ?]|]; cbn in ma; try discriminate;
+  destruct (get_min_item oo1 b) as [[? ?]|], (get_min_item oo2 b) as [[? ?]|]; cbn in mb; try discriminate;
+  repeat match goal with H : Some _ = Some _ |- _ => injection H as -> end;
+  repeat split; reflexivity.
+Qed.
